@@ -34,7 +34,7 @@ EXPLANATION = (
     "computations in rectangular_grid after renaming the axis. The kernels' arithmetic is not examined."
 )
 ASSUMPTIONS = ["scipy KDTree.query(distance_upper_bound=r) returns inf beyond r", "the prebuilt molli_xt binary corresponds to distance.cpp (it cannot be rebuilt in this sandbox)"]
-FLOORS = {"C19.R1": 3, "C19.R2": 2, "C19.R3": 2, "C19.R4": 16, "C19.R5": 1}
+FLOORS = {"C19.R6": 4, "C19.R1": 3, "C19.R2": 2, "C19.R3": 2, "C19.R4": 16, "C19.R5": 1}
 
 
 def run(chk):
@@ -44,6 +44,7 @@ def run(chk):
     chk.call(r3_weights, chk)
     chk.call(r4_bindings, chk)
     chk.call(r5_axes, chk)
+    chk.call(r6_scripts, chk)
 
 
 def _derives_from(fn, e, param, asg):
@@ -505,3 +506,70 @@ def r5_axes(chk):
     chk.ok("C19.R5", f"{f.key}:meshgrid-order", f.where(mg[0]), "meshgrid(lattice of axis 0, 1, 2): each argument was resolved as the lattice of its own position")
 
 
+
+
+# ---------------------------------------------------------------------------------------------------------------------------
+def r6_scripts(chk):
+    """The command-line drivers (molli/scripts/gbca.py, grid.py) are the way the kernels are used at scale; what they hand down decides
+    what is computed:
+    (a) options that select the computation reach the kernel: a worker that accepts `weighted` / `max_dist` / `eps` passes it to every
+        descriptor call that has a parameter of that name (a dropped `weighted=weighted` writes the plain mean under `-w`);
+    (b) results are paired with the keys they were computed for: in `zip(K, list(map(lib.__getitem__, K2)))` K2 is K (a resumed
+        `grid --nearest` that loads the ensembles of all keys and zips them with the keys still to do stores another ensemble's table);
+    (c) a numeric option the user may legitimately set to 0 (`eps`) is not defaulted by truthiness."""
+    prog = chk.prog
+    from ..canon import Env
+
+    desc = {f.qualname: f for f in prog.functions(["molli.descriptor.gridbased"])}
+    n = 0
+    for mod in ("molli.scripts.gbca", "molli.scripts.grid"):
+        for f in prog.functions([mod]):
+            params = set(f.params())
+            env = Env(f.node)
+            # (a)
+            for c in [c for c in walk_no_nested(f.node) if isinstance(c, ast.Call) and (call_name(c) or "").startswith("ml.descriptor.")]:
+                callee = desc.get((call_name(c) or "").split(".")[-1])
+                if callee is None:
+                    continue
+                for opt in ("weighted", "max_dist", "eps"):
+                    if opt in params and opt in callee.params():
+                        n += 1
+                        chk.analysed(f)
+                        v = [k.value for k in c.keywords if k.arg == opt]
+                        pos = callee.params().index(opt)
+                        if not v and pos < len(c.args):
+                            v = [c.args[pos]]
+                        chk.decide(bool(v) and opt in names_in(env.expand(v[0])), "C19.R6", f"{f.key}:hands-{opt}-to-{callee.qualname}", f.where(c), f"{opt}={norm(v[0]) if v else None}",
+                                   f"{f.qualname} accepts `{opt}` and calls `{short(c, 60)}` without it: the kernel runs with its default - "
+                                   + ("`-w` computes the unweighted mean" if opt == "weighted" else f"the requested {opt} is ignored"))
+            # (b)
+            for z in [c for c in ast.walk(f.node) if isinstance(c, ast.Call) and call_name(c) == "zip" and len(c.args) == 2]:
+                a, b = z.args
+                bv = env.expand(b)
+                inner = bv
+                while isinstance(inner, ast.Call) and call_name(inner) in ("list", "tuple") and inner.args:
+                    inner = inner.args[0]
+                src = None
+                if isinstance(inner, ast.Call) and call_name(inner) == "map" and len(inner.args) == 2 and norm(inner.args[0]).endswith(".__getitem__"):
+                    src = inner.args[1]
+                elif isinstance(inner, (ast.ListComp, ast.GeneratorExp)) and len(inner.generators) == 1 and isinstance(inner.elt, ast.Subscript):
+                    src = inner.generators[0].iter
+                if src is None:
+                    continue
+                n += 1
+                chk.analysed(f)
+                chk.decide(norm(src) == norm(a), "C19.R6", f"{f.key}:results-paired-with-their-keys:{norm(a)}", f.where(z), f"zip({norm(a)}, items looked up for {norm(src)})",
+                           f"{f.qualname} zips `{norm(a)}` with the items it looked up for `{norm(src)}`: when the two lists differ (a resumed run: some keys are done already) "
+                           "the result stored under a key was computed from another key's ensemble")
+            # (c)
+            for t in walk_no_nested(f.node):
+                if isinstance(t, ast.Assign):
+                    tg = t.targets[0]
+                    names = [norm(x) for x in (tg.elts if isinstance(tg, ast.Tuple) else [tg])]
+                    vals = t.value.elts if isinstance(t.value, ast.Tuple) and isinstance(tg, ast.Tuple) and len(t.value.elts) == len(names) else [t.value] * len(names)
+                    for nm, v in zip(names, vals):
+                        if nm == "eps" and isinstance(v, ast.BoolOp) and isinstance(v.op, ast.Or) and isinstance(v.values[-1], ast.Constant) and v.values[-1].value not in (0, 0.0, None):
+                            n += 1
+                            chk.fail("C19.R6", f"{f.key}:eps-zero-is-a-value", f.where(t), f"`{short(t, 60)}` replaces a requested eps of 0 by {v.values[-1].value}: an exact pruning request "
+                                     "(`--prune 2.0:0`) silently drops points within the cut-off (approximate query)")
+    chk.require(n >= 4, f"only {n} script-level sites found (gbca / grid workers)")
